@@ -14,10 +14,10 @@ import (
 // outside constructors), or a named exemption with the reason it is safe. A new field that is written after
 // construction therefore fails until it is put under a lock (table) or shown to be confined.
 var sharedFieldExempt = map[string]string{
-	"FloatingIPPlugin.lastIPConf":          "written only through the pointer updateConfigMap hands to ensureIPAMConf; updateConfigMap runs on one goroutine at a time (Init's PollInfinite, then the wait.Until loop started by Run)",
-	"PolicyManager.podCachedInformer":      "assigned inside podInformerOnce.Do (sync.Once) and read after it",
-	"PolicyManager.podInformerFactory":     "assigned inside podInformerOnce.Do (sync.Once) and read after it",
-	"Galaxy.JsonConf":                      "filled by json.Unmarshal in Init before the server starts",
+	"FloatingIPPlugin.lastIPConf":      "written only through the pointer updateConfigMap hands to ensureIPAMConf; updateConfigMap runs on one goroutine at a time (Init's PollInfinite, then the wait.Until loop started by Run)",
+	"PolicyManager.podCachedInformer":  "assigned inside podInformerOnce.Do (sync.Once) and read after it",
+	"PolicyManager.podInformerFactory": "assigned inside podInformerOnce.Do (sync.Once) and read after it",
+	"Galaxy.JsonConf":                  "filled by json.Unmarshal in Init before the server starts",
 }
 
 func ruleSharedFieldInventory(c *Ctx, rule string) {
